@@ -22,7 +22,10 @@ R = Registry(
         "append to the NEW child's; append: append; remove: pop), passing the parent object and "
         "passive=PASSIVE_NO_FETCH; each mirror call is guarded by `initiator is not <token of that same impl>` "
         "(no ping-pong); listeners are registered append|set by uselist plus remove, retval+raw; the bulk "
-        "collection replace fires removals = old - new and additions = new - old."
+        "collection replace fires removals = old - new and additions = new - old; impl mutators deliver their event "
+        "before they change their own storage; list removers deliver the remove event in the phase the duplicate test "
+        "presupposes; a loop that removes from / appends to the collection it walks (impls, CollectionAdapter, "
+        "instrumentation wrappers) walks a snapshot, so every member gets its event."
     ),
     not_decided="agreement after flush and reload; slice operations on collections (C38); dynamic/write-only loaders.",
 )
